@@ -22,9 +22,10 @@ from props import c09
 PROPERTY = 'C08'
 LEVEL = 'exploration'
 RULE = ('(codepoints) every code point 0..0x10FFFF (quick: BMP + every 17th '
-        'supplementary + boundaries) in 7 contexts (alone, between letters, '
+        'supplementary + boundaries) in 8-10 contexts (alone, between letters, '
         'between hex-like neighbours, after a backslash, before "x41", '
-        'inside "u00..41", doubled) as a DATA path: dump, check one line / '
+        'inside "u00..41", doubled, literal backslash + x/u/U + its hex '
+        'digits) as a DATA path: dump, check one line / '
         'single-space fields, load, compare. (entries) Hypothesis lists of '
         '0..12 entries over all eight tags, hostile paths, sizes to 2**64, '
         '0..10 checksums, any timestamp with second resolution, sorted and '
@@ -123,8 +124,17 @@ HASHVAL = {'MD5': 'd41d8cd98f00b204e9800998ecf8427e'}
 
 
 def contexts(c):
-    return [c, 'a' + c + 'b', '4' + c + '41', '\\' + c, c + 'x41',
-            'u00' + c + '41', c + c]
+    cp = ord(c)
+    out = [c, 'a' + c + 'b', '4' + c + '41', '\\' + c, c + 'x41',
+           'u00' + c + '41', c + c]
+    # a literal backslash followed by what looks like the escape of this
+    # code point (must come back as these literal characters)
+    if cp <= 0xFF:
+        out.append('q\\x%02X' % cp)
+    if cp <= 0xFFFF:
+        out.append('q\\u%04X' % cp)
+    out.append('q\\U%08X' % cp)
+    return out
 
 
 def cp_blocks(tier):
@@ -175,6 +185,9 @@ HOSTILE = ('abzAZ09._+-,:=@~/ \t\\\n\r\x00\x01\x0b\x0c\x1c\x1f\x7f\x80\x85\x9f'
            '\xa0éж漢      　﻿'
            '\U0001F600xuU4#"\'')
 
+LOOKALIKES = ['\\u00e9', '\\x41', '\\U0001F600', '\\x5C', '\\x5Cx41',
+              '\\\\u0041', '\\x5Cu00e9', '\\ud800', '\\x2F']
+
 path_chars = st.one_of(
     st.sampled_from(HOSTILE),
     st.sampled_from(HOSTILE),
@@ -186,6 +199,9 @@ path_chars = st.one_of(
 def rel_path(draw, allow_slash=True, surrogates=True):
     n = draw(st.integers(1, 12))
     chars = [draw(path_chars) for _ in range(n)]
+    if draw(st.integers(0, 3)) == 0:
+        chars.insert(draw(st.integers(0, len(chars))),
+                     draw(st.sampled_from(LOOKALIKES)))
     s = ''.join(chars)
     if not surrogates:
         s = ''.join(c for c in s if not 0xD800 <= ord(c) <= 0xDFFF) or 'q'
